@@ -27,6 +27,10 @@ func (em *emitter) emitNodes(nodes []ast.Node) {
 			em.fb.exitScope()
 
 		case *ast.Break:
+			if node.Label != nil {
+				em.emitLabeledBranch(node.Label.Name, false)
+				continue
+			}
 			if em.breakable {
 				if em.breakLabel == nil {
 					label := em.fb.newLabel()
@@ -34,9 +38,6 @@ func (em *emitter) emitNodes(nodes []ast.Node) {
 				}
 				em.fb.emitGoto(*em.breakLabel)
 			} else {
-				if node.Label != nil {
-					panic(internalError("not implemented"))
-				}
 				em.fb.emitBreak(em.rangeLabels[len(em.rangeLabels)-1])
 			}
 
@@ -48,7 +49,8 @@ func (em *emitter) emitNodes(nodes []ast.Node) {
 
 		case *ast.Continue:
 			if node.Label != nil {
-				panic(internalError("not implemented"))
+				em.emitLabeledBranch(node.Label.Name, true)
+				continue
 			}
 			forHead := em.rangeLabels[len(em.rangeLabels)-1]
 			if em.inForRange {
@@ -112,6 +114,7 @@ func (em *emitter) emitNodes(nodes []ast.Node) {
 			em.inForRange = false
 			em.breakable = true
 			em.breakLabel = nil
+			target := em.enterBranchTarget(false)
 			em.fb.enterScope()
 			if node.Init != nil {
 				em.emitNodes([]ast.Node{node.Init})
@@ -119,6 +122,7 @@ func (em *emitter) emitNodes(nodes []ast.Node) {
 			if node.Condition != nil {
 				forHead := em.fb.newLabel()
 				forPost := em.fb.newLabel()
+				target.continueLabel = forPost
 				em.fb.setLabelAddr(forHead)
 				em.emitCondition(node.Condition)
 				endForLabel := em.fb.newLabel()
@@ -136,6 +140,7 @@ func (em *emitter) emitNodes(nodes []ast.Node) {
 				forLabel := em.fb.newLabel()
 				em.fb.setLabelAddr(forLabel)
 				endForLabel := em.fb.newLabel()
+				target.continueLabel = forLabel
 				em.rangeLabels = append(em.rangeLabels, forLabel)
 				em.emitNodes(node.Body)
 				if node.Post != nil {
@@ -148,6 +153,7 @@ func (em *emitter) emitNodes(nodes []ast.Node) {
 			if em.breakLabel != nil {
 				em.fb.setLabelAddr(*em.breakLabel)
 			}
+			em.exitBranchTarget(target)
 			em.breakable = currentBreakable
 			em.breakLabel = currentBreakLabel
 			em.inForRange = currentInForRange
@@ -217,7 +223,9 @@ func (em *emitter) emitNodes(nodes []ast.Node) {
 			}
 			em.fb.setLabelAddr(em.labels[em.fb.fn][node.Ident.Name])
 			if node.Statement != nil {
+				em.stmtLabel = node.Ident.Name
 				em.emitNodes([]ast.Node{node.Statement})
+				em.stmtLabel = ""
 			}
 
 		case *ast.Raw:
@@ -287,10 +295,12 @@ func (em *emitter) emitNodes(nodes []ast.Node) {
 			currentBreakLabel := em.breakLabel
 			em.breakable = true
 			em.breakLabel = nil
+			target := em.enterBranchTarget(false)
 			em.emitSelect(node)
 			if em.breakLabel != nil {
 				em.fb.setLabelAddr(*em.breakLabel)
 			}
+			em.exitBranchTarget(target)
 			em.breakable = currentBreakable
 			em.breakLabel = currentBreakLabel
 
@@ -327,10 +337,12 @@ func (em *emitter) emitNodes(nodes []ast.Node) {
 			currentBreakLabel := em.breakLabel
 			em.breakable = true
 			em.breakLabel = nil
+			target := em.enterBranchTarget(false)
 			em.emitSwitch(node)
 			if em.breakLabel != nil {
 				em.fb.setLabelAddr(*em.breakLabel)
 			}
+			em.exitBranchTarget(target)
 			em.breakable = currentBreakable
 			em.breakLabel = currentBreakLabel
 
@@ -348,10 +360,12 @@ func (em *emitter) emitNodes(nodes []ast.Node) {
 			currentBreakLabel := em.breakLabel
 			em.breakable = true
 			em.breakLabel = nil
+			target := em.enterBranchTarget(false)
 			em.emitTypeSwitch(node)
 			if em.breakLabel != nil {
 				em.fb.setLabelAddr(*em.breakLabel)
 			}
+			em.exitBranchTarget(target)
 			em.breakable = currentBreakable
 			em.breakLabel = currentBreakLabel
 
@@ -1107,6 +1121,18 @@ func (em *emitter) emitForRange(node *ast.ForRange) {
 	breakable := em.breakable
 	em.breakable = false
 
+	target := em.enterBranchTarget(true)
+
+	// If the body contains labeled 'break' or 'continue' statements, they can
+	// refer to a statement, that is not a range statement, enclosing this
+	// one: in this case the branch sets the flag register, breaks this
+	// statement, and the jump is done after it. The register is allocated
+	// outside the scope of the statement because it is read after it.
+	if hasLabeledBranch(node.Body) {
+		target.flag = em.fb.newRegister(reflect.Int)
+		em.fb.emitMove(true, 0, target.flag, reflect.Int)
+	}
+
 	em.fb.enterScope()
 
 	vars := node.Assignment.Lhs
@@ -1164,6 +1190,7 @@ func (em *emitter) emitForRange(node *ast.ForRange) {
 	rangeLabel := em.fb.newLabel()
 	em.fb.setLabelAddr(rangeLabel)
 	endRange := em.fb.newLabel()
+	target.rangeLabel = rangeLabel
 	em.rangeLabels = append(em.rangeLabels, rangeLabel)
 	em.fb.emitRange(kExpr, exprReg, index, elem, exprType.Kind())
 	em.fb.emitGoto(endRange)
@@ -1181,9 +1208,11 @@ func (em *emitter) emitForRange(node *ast.ForRange) {
 	em.fb.setLabelAddr(endRange)
 	em.rangeLabels = em.rangeLabels[:len(em.rangeLabels)-1]
 	em.fb.exitScope()
+	exits, flag := target.exits, target.flag
 	em.fb.exitScope()
 	em.inForRange = inForRange
 	em.breakable = breakable
+	em.exitBranchTarget(target)
 
 	if node.Else != nil {
 		endForLabel := em.fb.newLabel()
@@ -1195,4 +1224,185 @@ func (em *emitter) emitForRange(node *ast.ForRange) {
 		em.fb.setLabelAddr(endForLabel)
 	}
 
+	// Do the jumps requested by the labeled branches that have broken the
+	// statement.
+	for i, exit := range exits {
+		em.fb.emitIf(true, flag, runtime.ConditionNotEqual, int8(i+1), reflect.Int, nil)
+		em.fb.emitGoto(exit)
+	}
+
+}
+
+// branchTarget represents a statement, enclosing the statement that is going
+// to be emitted, that a labeled 'break' or 'continue' can refer to.
+type branchTarget struct {
+
+	// name is the name of the label of the statement; it is empty if the
+	// statement is not labeled.
+	name string
+
+	// isRange reports whether it is a range statement.
+	isRange bool
+
+	// rangeLabel, for a range statement, is the label of its Range instruction.
+	rangeLabel label
+
+	// continueLabel, for a 'for' statement, is the label where a 'continue'
+	// jumps.
+	continueLabel label
+
+	// breakLabel, for a statement that is not a range statement, is the label
+	// of the end of the statement. It is allocated when a labeled 'break'
+	// refers to the statement.
+	breakLabel *label
+
+	// flag and exits are used for range statements. If flag is not zero, it
+	// is the register that, when the statement ends, holds i+1 if the
+	// execution must continue from the label exits[i].
+	flag  int8
+	exits []label
+}
+
+// enterBranchTarget is called before emitting a statement that can be the
+// target of a 'break' or a 'continue'. It returns the target.
+func (em *emitter) enterBranchTarget(isRange bool) *branchTarget {
+	target := &branchTarget{name: em.stmtLabel, isRange: isRange}
+	em.stmtLabel = ""
+	em.branchTargets = append(em.branchTargets, target)
+	return target
+}
+
+// exitBranchTarget is called after the statement of target has been emitted.
+func (em *emitter) exitBranchTarget(target *branchTarget) {
+	if target.breakLabel != nil {
+		em.fb.setLabelAddr(*target.breakLabel)
+	}
+	em.branchTargets = em.branchTargets[:len(em.branchTargets)-1]
+}
+
+// emitLabeledBranch emits a 'break' or a 'continue' statement with a label.
+func (em *emitter) emitLabeledBranch(name string, isContinue bool) {
+	// Find the target and the outermost range statement, if any, between
+	// the target and the branch.
+	var target, outerRange *branchTarget
+	for i := len(em.branchTargets) - 1; i >= 0; i-- {
+		t := em.branchTargets[i]
+		if t.name == name {
+			target = t
+			break
+		}
+		if t.isRange {
+			outerRange = t
+		}
+	}
+	if target == nil {
+		panic(internalError("label %s not found", name))
+	}
+	if target.isRange {
+		// The Range instructions between the branch and the target return
+		// to the Range instruction of the target.
+		if isContinue {
+			em.fb.emitContinue(target.rangeLabel)
+		} else {
+			em.fb.emitBreak(target.rangeLabel)
+		}
+		return
+	}
+	var dest label
+	if isContinue {
+		dest = target.continueLabel
+	} else {
+		if target.breakLabel == nil {
+			label := em.fb.newLabel()
+			target.breakLabel = &label
+		}
+		dest = *target.breakLabel
+	}
+	if outerRange == nil {
+		em.fb.emitGoto(dest)
+		return
+	}
+	// Break the outermost range statement and jump after it.
+	if outerRange.flag == 0 {
+		panic(internalError("not implemented"))
+	}
+	index := -1
+	for i, exit := range outerRange.exits {
+		if exit == dest {
+			index = i
+			break
+		}
+	}
+	if index == -1 {
+		outerRange.exits = append(outerRange.exits, dest)
+		index = len(outerRange.exits) - 1
+	}
+	em.fb.emitMove(true, int8(index+1), outerRange.flag, reflect.Int)
+	em.fb.emitBreak(outerRange.rangeLabel)
+}
+
+// hasLabeledBranch reports whether nodes contain, outside function literals,
+// a 'break' or a 'continue' statement with a label.
+func hasLabeledBranch(nodes []ast.Node) bool {
+	for _, node := range nodes {
+		switch node := node.(type) {
+		case *ast.Break:
+			if node.Label != nil {
+				return true
+			}
+		case *ast.Continue:
+			if node.Label != nil {
+				return true
+			}
+		case *ast.Block:
+			if hasLabeledBranch(node.Nodes) {
+				return true
+			}
+		case *ast.Statements:
+			if hasLabeledBranch(node.Nodes) {
+				return true
+			}
+		case *ast.If:
+			if node.Then != nil && hasLabeledBranch(node.Then.Nodes) {
+				return true
+			}
+			if node.Else != nil && hasLabeledBranch([]ast.Node{node.Else}) {
+				return true
+			}
+		case *ast.For:
+			if hasLabeledBranch(node.Body) {
+				return true
+			}
+		case *ast.ForRange:
+			if hasLabeledBranch(node.Body) {
+				return true
+			}
+			if node.Else != nil && hasLabeledBranch(node.Else.Nodes) {
+				return true
+			}
+		case *ast.Switch:
+			for _, c := range node.Cases {
+				if hasLabeledBranch(c.Body) {
+					return true
+				}
+			}
+		case *ast.TypeSwitch:
+			for _, c := range node.Cases {
+				if hasLabeledBranch(c.Body) {
+					return true
+				}
+			}
+		case *ast.Select:
+			for _, c := range node.Cases {
+				if hasLabeledBranch(c.Body) {
+					return true
+				}
+			}
+		case *ast.Label:
+			if node.Statement != nil && hasLabeledBranch([]ast.Node{node.Statement}) {
+				return true
+			}
+		}
+	}
+	return false
 }
